@@ -131,6 +131,11 @@ func (g *Gen) text(kind string) string {
 	if kind == "body" && g.R.Chance(1, 3) {
 		s += "\n\n- item one\n- item two\n"
 	}
+	if g.Text == "huge" && kind == "body" && g.R.Chance(1, 60) {
+		// beyond what one event line can hold: to be refused, or stored and
+		// readable - never stored and unreadable
+		return "oversized " + strings.Repeat("x", 10*1024*1024+g.R.Intn(4096))
+	}
 	if g.Text == "huge" && kind == "body" && g.R.Chance(1, 4) {
 		n := 200 + g.R.Intn(3000)
 		if g.R.Chance(1, 5) {
